@@ -149,9 +149,10 @@ def unit(tier):
     S_ = Session((), True)
     stats = {'paths': 0, 'tuples': 0, 'fenc': set(), 'lmod': set(), 'solver_s': 0.0, 'branches': 0}
     findings = []; inconclusive = []; samples = []
-    # quick also: stabiliser chains of depth >= 2 with concrete generators (two independent swaps on 4 slots, three on 6) and one symbolic generator next to (0 1) on 4 slots
+    # quick also: stabiliser chains of depth >= 2 with concrete generators (two independent swaps on 4 slots, three on 6), one symbolic generator next to (0 1) on 4 slots,
+    # and a single generator with cycles of different lengths, (0 1)(2 3 4) on 5 slots (order 6: its powers are not one orbit walk)
     plan = [(2, 1, True), (3, 1, True), (3, 2, False), (4, 0, False, ((1, 0, 2, 3), (0, 1, 3, 2))), (6, 0, False, ((1, 0, 2, 3, 4, 5), (0, 1, 3, 2, 4, 5), (0, 1, 2, 3, 5, 4))),
-            (4, 1, False, ((1, 0, 2, 3),))] if tier == 'quick' else [(4, 0, False, ((1, 0, 2, 3), (0, 1, 3, 2))), (6, 0, False, ((1, 0, 2, 3, 4, 5), (0, 1, 3, 2, 4, 5), (0, 1, 2, 3, 5, 4))),(2, 1, True), (2, 2, True), (3, 1, True), (3, 2, True), (4, 1, False), (4, 2, False),
+            (4, 1, False, ((1, 0, 2, 3),)), (5, 0, False, ((1, 0, 3, 4, 2),))] if tier == 'quick' else [(5, 0, False, ((1, 0, 3, 4, 2),)), (4, 0, False, ((1, 0, 2, 3), (0, 1, 3, 2))), (6, 0, False, ((1, 0, 2, 3, 4, 5), (0, 1, 3, 2, 4, 5), (0, 1, 2, 3, 5, 4))),(2, 1, True), (2, 2, True), (3, 1, True), (3, 2, True), (4, 1, False), (4, 2, False),
                                                                                                 (5, 1, False, ((0, 1, 2, 4, 3),)), (5, 1, False, ((1, 0, 3, 2, 4),))]
     for n, g, wq, *fx in plan: samples.append(unit_case(S_, n, g, wq, stats, findings, inconclusive, fixed=fx[0] if fx else ()))
     violations = []; validated = 0; seen = set(); failed = {}
